@@ -343,6 +343,9 @@ Proof.
     destruct (r_mu (getr s r)); [discriminate|].
     destruct (r_stop (getr s r)); inversion H; subst; clear H; simpl s_nodes; (split; [fin | apply outs_le_refl]).
   - (* FCleanStart *)
+    destruct (Nat.eqb arg 1).
+    { destruct (r_cancel (getr s r)); [|discriminate]. inversion H; subst; clear H. simpl s_nodes.
+      split; [fin | apply outs_le_refl]. }
     destruct (r_clock (getr s r)); [discriminate|]. inversion H; subst; clear H. simpl s_nodes.
     split; [|apply outs_le_refl].
     assert (Q := Cb r). rewrite <- Hpr in Q. rewrite <- (map_length snd) in Q.
